@@ -523,7 +523,7 @@ package raft
 //@   requires only_committed: index <= r.commitIndex
 //@   requires futures_by_index: forall i uint64 :: dom(futures, i) ==> futures[i] != nil && futures[i].log.Index == i
 //@   requires index_range: index < MaxInt63
-//@   modifies r.lastApplied, sent(r.fsmMutateCh), allof("H.logFuture."), allof("CH.sent.error"), allof("CH.last.error"), allof("CH.closed"), allof("CH.sent.interface"), allof("CH.last.interface")
+//@   modifies r.lastApplied, sent(r.fsmMutateCh), allof("H.logFuture."), allof("CH.sent.error"), allof("CH.last.error"), allof("CH.closed"), allof("CH.sent.interface"), allof("CH.last.interface"), received(r.shutdownCh)
 //@   ensures  applied: r.lastApplied == max(old(r.lastApplied), index)
 //@   ensures  old_index_sends_nothing: index <= old(r.lastApplied) ==> sent(r.fsmMutateCh) == old(sent(r.fsmMutateCh))
 //@   ensures  no_skip: forall i uint64 :: old(r.lastApplied) < i && i <= index && !dom(futures, i) ==> r.logs.has[i]
@@ -619,7 +619,7 @@ package raft
 
 //@ func overrideNotifyBool
 //@   requires nonnil: ch != nil
-//@   modifies sent(ch)
+//@   modifies sent(ch), received(ch)
 //@   ensures  holds_latest: lastsent(ch) == v
 //@   ensures  one_message: sent(ch) == old(sent(ch)) + 1
 
@@ -662,6 +662,31 @@ package raft
 //@   modifies nothing
 
 // ---------------------------------------------------------------------------
+// container/list (assumed contracts, trusted base): the in-flight queue. Only its length and the
+// membership of an element are modelled (ghost maps); order and contents are not.
+
+//@ ghostvar listLen map[*list.List]int
+//@ ghostvar listOf map[*list.Element]*list.List
+
+//@ extern (*container/list.List).Front(l)
+//@   modifies nothing
+//@   ensures  nil_iff_empty: (result == nil) == (listLen[l] == 0)
+//@   ensures  member: result != nil ==> listOf[result] == l
+//@   ensures  length_nonnegative: listLen[l] >= 0
+
+//@ extern (*container/list.List).Remove(l, e)
+//@   modifies listLen, listOf
+//@   ensures  removed: old(listOf[e]) == l ==> listLen[l] == old(listLen[l]) - 1 && listOf[e] == nil
+//@   ensures  foreign_element_ignored: old(listOf[e]) != l ==> listLen[l] == old(listLen[l]) && listOf[e] == old(listOf[e])
+//@   ensures  other_lists: forall m *list.List :: m != l ==> listLen[m] == old(listLen[m])
+//@   ensures  other_elements: forall f *list.Element :: f != e ==> listOf[f] == old(listOf[f])
+
+//@ extern (*container/list.Element).Next(e)
+//@   modifies nothing
+//@   ensures  detached_has_no_successor: listOf[e] == nil ==> result == nil
+//@   ensures  successor_in_same_list: result != nil ==> listOf[result] == listOf[e] && result != e
+
+// ---------------------------------------------------------------------------
 // C20: user restore
 
 //@ func (r *Raft) restoreUserSnapshot
@@ -677,6 +702,8 @@ package raft
 //@   ensures  durable_before_restore: sent(r.fsmMutateCh) != old(sent(r.fsmMutateCh)) ==> snapDurable[max(meta.Index, max(old(r.lastLogIndex), old(r.lastSnapshotIndex))) + 1]
 //@   ensures  error_leaves_cached_tail: result != nil ==> r.lastLogIndex == old(r.lastLogIndex) && r.lastApplied == old(r.lastApplied) && r.lastSnapshotIndex == old(r.lastSnapshotIndex)
 //@   ensures  term_untouched: r.currentTerm == old(r.currentTerm) && r.state == old(r.state)
+//@   ensures  every_inflight_request_cancelled: result == nil ==> listLen[r.leaderState.inflight] == 0
+//@   at call (*deferError).respond#1 assert aborted_by_restore: arg1 == ErrAbortedByRestore
 //@   at call (*deferError).Error#1 assert restore_request_has_shutdown_escape: fsm.ShutdownCh == r.shutdownCh && sent(r.fsmMutateCh) == old(sent(r.fsmMutateCh)) + 1
 //@   loop 1 invariant untouched: r.lastLogIndex == old(r.lastLogIndex) && r.lastLogTerm == old(r.lastLogTerm) && r.lastApplied == old(r.lastApplied) &&
 //@              r.lastSnapshotIndex == old(r.lastSnapshotIndex) && r.lastSnapshotTerm == old(r.lastSnapshotTerm) && r.currentTerm == old(r.currentTerm) && r.state == old(r.state) &&
@@ -971,6 +998,7 @@ package raft
 
 //@ func (r *Raft) leaderLoop
 //@   requires nonnil: r != nil
+//@   modifies allof("")
 //@   noinference
 //@   localonly
 //@   at call (*Raft).restoreUserSnapshot#1 assert refused_during_transfer: r.leaderState.leadershipTransferInProgress != 1
@@ -1064,3 +1092,47 @@ package raft
 //@   at call (*Raft).electSelf#1 assert prevote_skipped_only_when_disabled_or_transfer: r.preVoteDisabled || r.candidateFromLeadershipTransfer.v != 0
 //@   at call (*Raft).electSelf#2 assert term_bumped_only_after_prevote_quorum: preVote.Granted && prev(preVoteGrantedVotes) + 1 >= votesNeeded
 //@   at call (*Raft).setState#3 assert leader_only_with_quorum_of_grants: grantedVotes >= votesNeeded
+
+// ---------------------------------------------------------------------------
+// C10: start-up restore from the snapshot store. tryRestoreSingleSnapshot opens the snapshot and feeds
+// it to the user's FSM (trusted: touches no raft state); restoreSnapshot must record as resume point
+// exactly the snapshot it restored.
+
+//@ func (r *Raft) tryRestoreSingleSnapshot
+//@   trusted opens one snapshot and restores the user FSM from it; reads configuration and logger, writes no raft state
+//@   requires nonnil: r != nil
+//@   modifies nothing
+
+//@ func (r *Raft) restoreSnapshot
+//@   requires nonnil: r != nil && r.snapshots != nil && r.logger != nil && r.trans != nil
+//@   ensures  term_and_log_untouched: r.currentTerm == old(r.currentTerm) && r.lastLogIndex == old(r.lastLogIndex) && r.lastLogTerm == old(r.lastLogTerm)
+//@   at call (*raftState).setLastSnapshot#1 assert records_the_restored_snapshot: success && arg1 == snapshot.Index && arg2 == snapshot.Term
+//@   at call (*raftState).setLastApplied#1 assert resumes_after_the_restored_snapshot: success && arg1 == snapshot.Index
+//@   at call (*Raft).setCommittedConfiguration#1 assert configuration_index_of_the_restored_snapshot: arg2 == ite(snapshot.Version > 0, snapshot.ConfigurationIndex, snapshot.Index)
+//@   at call (*Raft).setLatestConfiguration#1 assert same_configuration_committed_and_latest: arg2 == ite(snapshot.Version > 0, snapshot.ConfigurationIndex, snapshot.Index) && r.configurations.committedIndex == arg2
+
+// ---------------------------------------------------------------------------
+// runLeader (C18: one notification per gain and per loss, LeaderCh holds the newest transition;
+// C17/C08: step-down answers with ErrLeadershipLost). leaderLoop is used through its contract here:
+// it may change anything (modifies everything), so only what runLeader does before and after it counts.
+
+//@ func (r *Raft) runLeader
+//@   requires nonnil: r != nil && r.logger != nil && r.leaderCh != nil && typeis(r.conf.v, Config)
+//@   requires own_channel: cast(r.conf.v, Config).NotifyCh != r.leaderCh
+//@   noinference
+//@   localonly
+//@   ensures  loss_announced_last: lastsent(r.leaderCh) == false
+//@   at call (*Raft).setupLeaderState#1 assert gain_announced_first: lastsent(r.leaderCh) == true && sent(r.leaderCh) == old(sent(r.leaderCh)) + 1
+//@   at call (*Raft).setupLeaderState#1 assert at_most_one_gain_message: notify != nil ==> sent(notify) <= old(sent(notify)) + 1 && (sent(notify) == old(sent(notify)) + 1 ==> lastsent(notify) == true)
+
+// the deferred step-down cleanup of runLeader
+//@ func (r *Raft) runLeader$1
+//@   requires nonnil: r != nil && r.leaderCh != nil && r.leaderState.inflight != nil
+//@   requires own_channel: notify != r.leaderCh
+//@   localonly
+//@   ensures  loss_announced_last: lastsent(r.leaderCh) == false && sent(r.leaderCh) == old(sent(r.leaderCh)) + 1
+//@   ensures  at_most_one_loss_message: notify != nil ==> sent(notify) <= old(sent(notify)) + 1 && (sent(notify) == old(sent(notify)) + 1 ==> lastsent(notify) == false)
+//@   ensures  leader_state_cleared: r.leaderState.inflight == nil && r.leaderState.notify == nil && r.leaderState.commitment == nil && r.leaderState.replState == nil
+//@   ensures  own_leadership_no_longer_advertised: !(r.leaderAddr == r.localAddr && r.leaderID == r.localID) || (r.localAddr == "" && r.localID == "")
+//@   at call (*deferError).respond#1 assert inflight_answered_leadership_lost: arg1 == ErrLeadershipLost
+//@   at call (*deferError).respond#2 assert verify_answered_leadership_lost: arg1 == ErrLeadershipLost
